@@ -46,6 +46,9 @@ type intrEv struct {
 	// controller) at the AtAccess-th memory access of Step AtStep - possibly in the middle of the acknowledge
 	// of another request; in the unwrapped run it is set before that Step like the others
 	AtAccess int `json:"at_access,omitempty"`
+	// Every: in the wrapped run the memory raises this request afresh at every one of its accesses from Step AtStep
+	// on (a device that keeps its line asserted): each Step still returns
+	Every bool `json:"every,omitempty"`
 }
 
 type totalCase struct {
@@ -72,12 +75,16 @@ type cntMem struct {
 	n      int    // accesses in this Step
 	fireAt int    // call fire at this access
 	fire   func() // device callback
+	storm  func() // device callback made at every access
 }
 
 func (c *cntMem) tick() {
 	c.n++
 	if c.n == c.fireAt && c.fire != nil {
 		c.fire()
+	}
+	if c.storm != nil {
+		c.storm()
 	}
 }
 
@@ -276,7 +283,9 @@ func runTotalInner(c *totalCase, wrap bool, at *int64) totalOutcome {
 		}
 		for i := range c.Intr {
 			if c.Intr[i].AtStep == s {
-				if ev := &c.Intr[i]; ev.AtAccess > 0 && cm != nil {
+				if ev := &c.Intr[i]; ev.Every && cm != nil {
+					cm.storm = func() { cpu.Interrupt = mkIntr(ev); o.byDevice++ }
+				} else if ev.AtAccess > 0 && cm != nil {
 					cm.fireAt, cm.fire = ev.AtAccess, func() { cpu.Interrupt = mkIntr(ev); o.byDevice++ }
 				} else {
 					cpu.Interrupt = mkIntr(&c.Intr[i])
@@ -350,7 +359,7 @@ func runTotalInner(c *totalCase, wrap bool, at *int64) totalOutcome {
 		// raised before the first Step (it may stay pending for ever: Run must still stop at the HALT)
 		onlyAtStart := true
 		for i := range c.Intr {
-			if c.Intr[i].AtStep != 0 || (wrap && c.Intr[i].AtAccess > 0) {
+			if c.Intr[i].AtStep != 0 || (wrap && (c.Intr[i].AtAccess > 0 || c.Intr[i].Every)) {
 				onlyAtStart = false // (nor can a request raised by the memory in the middle of a given Step be scheduled under Run)
 			}
 		}
@@ -383,6 +392,30 @@ func runTotalInner(c *totalCase, wrap bool, at *int64) totalOutcome {
 				return o
 			}
 			o.ranRun = true
+			// Run with a context that is already cancelled: it still returns (with the context's error or, the program
+			// being over so soon, with nil)
+			cpu4, _, _ := build(c, wrap)
+			for i := range c.Intr {
+				cpu4.Interrupt = mkIntr(&c.Intr[i])
+			}
+			cctx, ccancel := context.WithCancel(context.Background())
+			ccancel()
+			done4 := make(chan any, 1)
+			go func() {
+				defer func() { done4 <- recover() }()
+				done4 <- cpu4.Run(cctx)
+			}()
+			select {
+			case r := <-done4:
+				if _, isErr := r.(error); r != nil && !isErr {
+					o.msg = fmt.Sprintf("Run with a cancelled context panicked: %v", r)
+					return o
+				}
+				<-done4
+			case <-time.After(20 * time.Second):
+				o.msg = fmt.Sprintf("Run with an already cancelled context did not return within 20 s on a program that halts after %d Steps", haltedAt)
+				return o
+			}
 			// the same with break points on the address of the HALT and on the start address, and Run called again
 			// on the parked CPU: every call must return (with whatever error)
 			cpu3, _, _ := build(c, wrap)
@@ -541,6 +574,9 @@ func decode(data []byte) totalCase {
 		}
 		if t>>4&3 == 3 {
 			ev.AtAccess = 1 + int(t>>6)
+		}
+		if t>>4&15 == 6 {
+			ev.Every = true
 		}
 		dl := int(r.u8()) % 10
 		if dl == 9 {
@@ -706,7 +742,7 @@ func TestC12(t *testing.T) {
 	col.Rule = "deterministic prefix sweep (every byte after CB, ED, DD, FD, DD CB d, FD CB d x memory kind {64 KiB, short DumbMemory, MapMemory} x IO kind {nil, short DumbIO, device} x PC in {0x0100, 0xFFFC..0xFFFF}), " +
 		"acknowledge sweep (IM in {0,1,2,3,-1,255} x first request {NMI, maskable with no / vector / RST / CALL data} x second request raised by the memory itself at its 1st..4th access of the acknowledging Step x PC {0x0100, 0xFFFF} x IFF1), hostile seed corpus, then rapid-generated byte strings decoded into (registers, any IM, PC/SP anywhere, memory kind and length biased to the addresses in use +-1, IO kind and length, program bytes at PC and at 0xFFF0.., " +
 		"interrupt schedule with any Type and data of 0..8 or 65537 bytes, a quarter of the requests raised by the memory during a Step instead of between Steps); up to 64 Steps under recover; oracle = no panic, an opcode logged as invalid changes only PC and R, reads only its own bytes and advances PC by exactly that many, " +
-		"a program seen to halt makes Run return with the same state, and return from each of up to three calls when break points sit on the HALT and on the start address (further calls only while the CPU is parked on a HALT in memory with no request left); non-trivial = executes an invalid encoding, a prefix sequence cut at 0xFFFF, PC/SP beyond a short memory, or an interrupt; distinct by hash(bytes)"
+		"a program seen to halt makes Run return with the same state, return under an already cancelled context, and return from each of up to three calls when break points sit on the HALT and on the start address (further calls only while the CPU is parked on a HALT in memory with no request left); non-trivial = executes an invalid encoding, a prefix sequence cut at 0xFFFF, PC/SP beyond a short memory, or an interrupt; distinct by hash(bytes)"
 	// prefix sweep
 	for _, pfx := range [][]int{{0xCB}, {0xED}, {0xDD}, {0xFD}, {0xDD, 0xCB, 0x05}, {0xFD, 0xCB, 0xFB}} {
 		for op := 0; op < 256; op++ {
@@ -746,6 +782,20 @@ func TestC12(t *testing.T) {
 						}
 					}
 				}
+			}
+		}
+	}
+	// the same with a device that raises its request afresh at every memory access (NMI, maskable with and without data)
+	for _, im := range []int{0, 1, 2} {
+		for si, storm := range []intrEv{{Type: 0, Every: true}, {Type: 1, Every: true}, {Type: 1, Data: []int{0xFF}, Every: true}, {Type: 1, Data: []int{0x10}, Every: true}} {
+			for iff := 0; iff < 2; iff++ {
+				c := totalCase{PC: 0x0100, SP: 0x8000, IR: 0x4000, IM: im, IFF1: iff == 1, MemKind: 0, IOKind: 2, Steps: 12, Fill: 0xFB, Intr: []intrEv{storm}}
+				o := runTotal(&c)
+				if o.msg != "" {
+					writeViolation(c, o.msg)
+					t.Fatalf("VIOLATION-CANDIDATE C12 %s", o.msg)
+				}
+				account(col, &c, &o, stats.Hash(0xAD, uint64(im), uint64(si), uint64(iff)))
 			}
 		}
 	}
